@@ -12,10 +12,10 @@ ArgsSafeMix == << A("auth", "auth", "one", TRUE, FALSE), A("safePath", "path", "
                   A("dnlQuery", "query", "opt", FALSE, FALSE), A("safeInt", "query", "opt", TRUE, TRUE), A("body", "body", "one", TRUE, FALSE) >>
 ArgsNames == << A("type", "path", "one", TRUE, FALSE), A("fooBar", "path", "one", TRUE, FALSE), A("async", "query", "one", TRUE, FALSE),
                 A("camelCase", "query", "opt", TRUE, FALSE), A("self", "header", "one", TRUE, FALSE),
-                A("snake_arg", "query", "many", TRUE, FALSE), A("match", "header", "opt", TRUE, FALSE) >>
+                A("snakeArg", "query", "many", TRUE, FALSE), A("match", "header", "opt", TRUE, FALSE) >>
 ArgsNamesMacro == << A("type", "path", "one", TRUE, FALSE), A("fooBar", "path", "one", TRUE, TRUE), A("async", "query", "one", TRUE, FALSE),
                      A("camelCase", "query", "opt", TRUE, TRUE), A("self", "header", "one", TRUE, FALSE),
-                     A("snake_arg", "query", "many", TRUE, FALSE), A("match", "header", "opt", TRUE, TRUE) >>
+                     A("snakeArg", "query", "many", TRUE, FALSE), A("match", "header", "opt", TRUE, TRUE) >>
 ArgsHeaders == << A("hs", "header", "one", FALSE, FALSE), A("ho", "header", "opt", TRUE, FALSE), A("hu", "header", "one", TRUE, FALSE),
                   A("ha", "header", "one", FALSE, FALSE), A("he", "header", "opt", TRUE, TRUE), A("hd", "header", "one", TRUE, FALSE) >>
 ArgsHeadersMacro == << A("hs", "header", "one", FALSE, FALSE), A("ho", "header", "opt", TRUE, FALSE), A("hu", "header", "one", TRUE, FALSE),
